@@ -179,7 +179,7 @@ func init() {
 			return s
 		},
 		Run:  c16Run,
-		Rule: "functions of p=0..3 parameters (a, b, c) whose bodies are decision chains (if (p_i == lit) { return V } …; return V) with V in {literal, empty string, p_j, p_j + \"x\"}, a side-effecting statement after every return (must not run), nested-if and let-in-body shapes; every argument tuple over {\"A\", \"B\", outer variable a (=\"B\"), outer variable b (=\"A\"), a nested call of the same function} — the outer variables are named like the parameters, so swapped arguments distinguish binding orders; result used in 12 ways (output tag, if condition incl. falsy results, !, == on either side, + on either side, let then use, argument of a recording Go helper, &&, array element, inside a for body). Plus nil arguments over every tuple of {nil, value, outer variables} for p<=3 (a parameter bound to nil must not fall through to a same-named caller variable), one identifier bound to different functions within a render, nested calls f(f(x)), g(f(x), f(y)) re-entrancy, higher-order apply(f, x), functions stored in let / passed through a Go helper / passed as parameters, recursion (countdown, factorial, fibonacci, mutual even/odd, 60 deep), a return nested 0..9 blocks deep used as a value in 8 ways, 700 / 400 calls in a row from one scope, paths (field, method, index) continuing from a function's result, calling call results. Loop returns: functions whose return sits in a for loop of the body (search loop, unconditional, nested loops, loop inside if) over an array literal / context slice / Iterator / hash literal, every argument (hit at each position, no hit), 5 uses: value of the first return reached, no iteration and no statement after it. Compared with a reference evaluation of the decision chain. Non-trivial: p >= 1.",
+		Rule: "functions of p=0..3 parameters (a, b, c) whose bodies are decision chains (if (p_i == lit) { return V } …; return V) with V in {literal, empty string, p_j, p_j + \"x\"}, a side-effecting statement after every return (must not run), nested-if and let-in-body shapes; every argument tuple over {\"A\", \"B\", outer variable a (=\"B\"), outer variable b (=\"A\"), a nested call of the same function} — the outer variables are named like the parameters, so swapped arguments distinguish binding orders; result used in 12 ways (output tag, if condition incl. falsy results, !, == on either side, + on either side, let then use, argument of a recording Go helper, &&, array element, inside a for body). Plus nil arguments over every tuple of {nil, value, outer variables} for p<=3 (a parameter bound to nil must not fall through to a same-named caller variable), one identifier bound to different functions within a render, nested calls f(f(x)), g(f(x), f(y)) re-entrancy, higher-order apply(f, x), functions stored in let / passed through a Go helper / passed as parameters, recursion (countdown, factorial, fibonacci, mutual even/odd, 60 deep), a return nested 0..9 blocks deep used as a value in 8 ways, 700 / 400 calls in a row from one scope, paths (field, method, index) continuing from a function's result, calling call results; calls with more arguments than parameters fail or evaluate every argument. Loop returns: functions whose return sits in a for loop of the body (search loop, unconditional, nested loops, loop inside if) over an array literal / context slice / Iterator / hash literal, every argument (hit at each position, no hit), 5 uses: value of the first return reached, no iteration and no statement after it. Compared with a reference evaluation of the decision chain. Non-trivial: p >= 1.",
 		Bound: func(th bool) string {
 			if th {
 				return "p<=3 with chains of <=2 conditions"
@@ -428,6 +428,26 @@ func c16Special(t *engine.T) {
 		cases = append(cases, struct{ name, src, want string }{"400 calls in a row from top-level tags", tags.String(), wt.String()})
 		cases = append(cases, struct{ name, src, want string }{"recursion 60 deep, twice", `<% let sum = fn(n) { if (n == 0) { return 0 }
  return n + sum(n - 1) } %><%= sum(60) %>|<%= sum(60) %>`, "1830|1830"})
+	}
+	// more arguments than parameters: the call fails, or at least every argument is evaluated - surplus arguments
+	// are never dropped unevaluated
+	for _, src := range []string{
+		`<% let f = fn(x) { return x } %><%= f("a", nope) %>`, `<% let f = fn() { return 1 } %><%= f(nope) %>`,
+		`<% let f = fn(x) { return x } %><%= f("a", rec("b")) %>`, `<% let f = fn(x, y) { return x } %><%= f("a", "b", rec("c"), rec("d")) %>`,
+	} {
+		src := src
+		t.Case("special surplus arguments "+q(src), true, func() (string, *engine.Fail) {
+			e := &c16Env{}
+			out, err := Render(src, e.context())
+			if err != nil {
+				return "rejected", nil
+			}
+			want := strings.Count(src, "rec(")
+			if strings.Contains(src, "nope") || len(e.seen) != want {
+				return "", engine.Failf("arguments", "surplus arguments were dropped without being evaluated (rendered %q, %d of %d recording arguments evaluated)", out, len(e.seen), want)
+			}
+			return "evaluated", nil
+		})
 	}
 	for _, c := range cases {
 		c := c
